@@ -320,8 +320,8 @@ func (ex *Exec) frameObligations(fr *Frame, st *State, c *FuncContract, env *Env
 			continue
 		}
 		goal := app("=", cur.S, old.S)
-		if strings.HasPrefix(h, "H_") || strings.HasPrefix(h, "HP_") {
-			// objects allocated by this call are not part of the caller's frame
+		if strings.HasPrefix(h, "H_") || strings.HasPrefix(h, "HP_") || strings.HasPrefix(h, "MD_") || strings.HasPrefix(h, "MV_") {
+			// objects (maps included) allocated by this call are not part of the caller's frame
 			goal = fmt.Sprintf("(forall ((r!f Int)) (=> (<= r!f alloc0) (= (select %s r!f) (select %s r!f))))", cur.S, old.S)
 		}
 		ex.obligationFull(fr, st, "frame", "unchanged (for objects that existed at entry): "+h, goal, false, h, true)
@@ -356,6 +356,7 @@ func (vc *VC) preamble() string {
 		}
 		for i, s := range vc.strOrder {
 			fmt.Fprintf(&b, "(declare-const str_lit_%d Str) ; %q\n", i+1, s)
+			fmt.Fprintf(&b, "(assert (= (str_len str_lit_%d) %d))\n", i+1, len(s))
 		}
 		fmt.Fprintf(&b, "(assert (distinct %s))\n", strings.Join(names, " "))
 	}
@@ -392,6 +393,9 @@ func (vc *VC) preamble() string {
 	for _, a := range vc.extraAxioms {
 		b.WriteString(a)
 		b.WriteString("\n")
+	}
+	if vc.declSet["str_sub"] {
+		b.WriteString("(assert (forall ((s Str) (i Int) (j Int)) (! (=> (and (<= 0 i) (<= i j) (<= j (str_len s))) (= (str_len (str_sub s i j)) (- j i))) :pattern ((str_sub s i j)))))\n")
 	}
 	b.WriteString(spAx)
 	b.WriteString(vc.prefixAxioms())
